@@ -322,11 +322,7 @@ func c09Overlap(c *fw.Ctx) {
 	defer kb.Close()
 	kb.Timeout = 60 * time.Second
 	s.k.Timeout = 60 * time.Second
-	for _, k := range []*refctl.Ctl{kb, s.k} { // small receive buffers: the 12 MiB response cannot be absorbed by the kernel
-		if tc, ok := k.C.(*net.TCPConn); ok {
-			tc.SetReadBuffer(16 << 10)
-		}
-	}
+
 	if _, ec, err := refctl.PairVerify(kb, idL, refctl.Seed32("c09-b"), nil); err != nil || ec != 0 {
 		c.Infra("verify B failed")
 		return
@@ -338,10 +334,10 @@ func c09Overlap(c *fw.Ctx) {
 			va, vb := strings.Repeat("A", sz), strings.Repeat("B", sz)
 			strs[0].Ch.UpdateValue(va)
 			strs[1].Ch.UpdateValue(vb)
-			first, second := s.k, kb
+			first, second := ka, kb
 			fi, si := 0, 1
 			if order == "B-blocked-A-complete" {
-				first, second = kb, s.k
+				first, second = kb, ka
 				fi, si = 1, 0
 			}
 			// first: send the request, read only the status line, then stop reading
@@ -697,7 +693,7 @@ func init() {
 	fw.Register(&fw.Check{
 		ID:     "C09",
 		Level:  "exploration",
-		Rule:   "real transport over TCP with a verified independent controller; accessories assembled from EVERY characteristic constructor found in /repo. (A) every constructor × the boundary alphabet of its format inside its bounds (min, min+step, mid, max−step, max; booleans; strings: empty, ASCII, quotes/backslashes, HTML characters, non-BMP runes, control characters, 1 KiB, 3000 bytes; base64 payloads of 0/1/300/5000 bytes): application-set value read by single id, in an id list and in /accessories; controller-written value compared with the typed getter and the remote-update callback. (B) id-list shapes [e] [ne] [e,ne] [ne,e] [e,e] [e1,e2,e3] [50 ids] [write-only] …: each id answered once, in order, with a value or a non-zero status, multi-status ⇒ every entry has a status. (C) response body length sweep: every string length 0..4200 (quick) / 0..9000 (thorough), walking every residue of the 2048-byte chunker, net/http's 4096-byte writer and the 1024-byte frame. (D) databases of 8, 9, 17, 57 (thorough 157) accessories. (E) overlapping responses of two verified controllers, the interleaving forced by flow control (one stops reading inside a response of 5000 / 6000 bytes / 12 MiB while the other completes a request), both orders. After every controller write the value is read back by id and in /accessories. distinct_nontrivial = distinct (operation, format / shape / frame count) classes",
+		Rule:   "real transport over TCP with a verified independent controller; accessories assembled from EVERY characteristic constructor found in /repo. (A) every constructor × the boundary alphabet of its format inside its bounds (min, min+step, mid, max−step, max; booleans; strings: empty, ASCII, quotes/backslashes, HTML characters, non-BMP runes, control characters, 1 KiB, 3000 bytes; base64 payloads of 0/1/300/5000 bytes): application-set value read by single id, in an id list and in /accessories; controller-written value compared with the typed getter and the remote-update callback. (B) id-list shapes [e] [ne] [e,ne] [ne,e] [e,e] [e1,e2,e3] [50 ids] [write-only] …: each id answered once, in order, with a value or a non-zero status, multi-status ⇒ every entry has a status. (C) response body length sweep: every string length 0..4200 (quick) / 0..9000 (thorough), walking every residue of the 2048-byte chunker, net/http's 4096-byte writer and the 1024-byte frame. (D) databases of 8, 9, 17, 57 (thorough 157) accessories. (E) overlapping responses of two verified controllers, the interleaving forced by flow control (one stops reading inside a response of 5000 / 6000 bytes / 12 MiB with fixed 64 KiB receive buffers while the other completes a request), both orders. After every controller write the value is read back by id and in /accessories. distinct_nontrivial = distinct (operation, format / shape / frame count) classes",
 		Shards: func(string) int { return 16 },
 		Run:    c09Run,
 		Replay: func(c *fw.Ctx, raw json.RawMessage) {
